@@ -167,6 +167,15 @@ reg("C20", "exploration",
     "ones), no exception may be raised or reach the notification exception handler, handlers fire at most once per step. Sampling.",
     BASE_NOTE, "DESIGN.md 3/C20")
 
+reg("C19", "fault_enumeration",
+    "fault injection with exhaustive enumeration of (callback ordinal k x exception type) per generated operation, all-or-nothing state oracle, never-failed-twin follow-up comparison and exception-type metamorphic relation",
+    "For each generated (prefix, operation, follow-up) the fault-free run counts the invocations of harness-owned user "
+    "callbacks (custom validators inside List/Dict/Set/Union/Either, default methods and factories, property getter/setter, "
+    "adapter factories, static/on_trait_change/observe/items handlers, validators of synchronised partners); every ordinal k "
+    "x {TraitError, ValueError, AttributeError, RuntimeError} is then injected on a fresh twin and judged. 27 operations; the "
+    "enumeration over k and exception types is complete for each generated operation, the operations themselves are sampled.",
+    BASE_NOTE + "User callbacks are harness-owned wrappers; Union alternatives that raise count as rejecting.", "DESIGN.md 3/C19")
+
 
 def main():
     props = [json.loads(l) for l in open(os.path.join(ROOT, "properties.jsonl"))]
